@@ -84,8 +84,9 @@ def fontBBox (es : List Rect) : Rect :=
 /-- OS/2 (version ≥ 3): "xAvgCharWidth — the arithmetic average of the escapement (width) of all
 non-zero width glyphs in the font", rounded to the nearest integer (half up). -/
 def avgCharWidth (ws : List Int) : Int :=
-  let p := ws.filter (· > 0)
-  if p.length = 0 then 0 else (2 * p.foldl (· + ·) 0 + p.length) / (2 * p.length)
+  let p := (ws.filter (· > 0)).map Int.toNat
+  let n := p.length
+  if n = 0 then 0 else ((2 * p.sum + n) / (2 * n) : Nat)
 
 /-- OS/2: usFirstCharIndex / usLastCharIndex — "minimum / maximum Unicode index in this font …
 0xFFFF if the value is beyond the BMP" -/
